@@ -512,6 +512,16 @@ pub fn generate(family: &str, r: &mut Rng, count: usize, emit: &mut dyn FnMut(St
                 // an arbitrary value
                 let any = crate::gen::gen_value(r, &crate::gen::VCFG_ANY, 2);
                 emit(format!("de {} {} ;; {}", e.name, ty, enc_value_text(&any)));
+                // a long string / symbol / byte vector where something else is expected: error reporting quotes or
+                // measures the offending value; multi-byte characters sit at every alignment around the 64th byte
+                if i % 4 == 0 {
+                    let pad = r.below(4);
+                    let unit = *r.pick(&["é", "€", "😀", "λx", "a"]);
+                    let body = format!("{}{}", "a".repeat(60 + pad), unit.repeat(3 + r.below(30)));
+                    let long = match r.below(4) { 0 => Value::string(body.as_str()), 1 => Value::symbol(body.as_str()), 2 => Value::keyword(body.as_str()), _ => Value::from(body.as_bytes()) };
+                    emit(format!("de {} {} ;; {}", e.name, ty, enc_value_text(&long)));
+                    emit(format!("de {} {} ;; {}", e.name, ty, enc_value_text(&Value::list(vec![long.clone(), long]))));
+                }
             }
         }
     }
